@@ -28,17 +28,25 @@ theorem simple_ns {ok u} {e : Node} (hg : goodW ok u e = true) (hs : isSimpleTar
 def SplitSpec (ok : String → Bool) (u : Bool) (left : Node) (R : (Node × Node) × St) (s : St) : Prop :=
   goodW ok u R.1.1 = true ∧ goodW ok u R.1.2 = true ∧ ns R.1.1 + ns R.1.2 = ns left ∧ TS R.2 s
 
+theorem good_seqOperand (ok u) (e : Node) : goodW ok u (seqOperand e) = goodW ok u e := by
+  unfold seqOperand; split <;> simp
+theorem ns_seqOperand (e : Node) : ns (seqOperand e) = ns e := by
+  unfold seqOperand; split <;> simp
+
 theorem hoistTargetPart_spec (ok u) (e : Node) (sp : Span) (s : St) (he : goodW ok u e = true) :
     SplitSpec ok u e (hoistTargetPart e sp s) s := by
   unfold hoistTargetPart
   simp only [run_bind]
-  rcases getTemporalIdent_cases e [] sp .expr s with ⟨hl, h⟩ | ⟨hl, n, s', h, ht⟩
+  have he' : goodW ok u (seqOperand e) = true := by rw [good_seqOperand]; exact he
+  rcases getTemporalIdent_cases (seqOperand e) [] sp .expr s with ⟨hl, h⟩ | ⟨hl, n, s', h, ht⟩
   · rw [h]
     simp only [run_pure]
-    exact ⟨he, he, by simp [isLit_ns hl], TS.refl s⟩
+    have := isLit_ns hl
+    rw [ns_seqOperand] at this
+    exact ⟨he', he', by simp [ns_seqOperand, this], TS.refl s⟩
   · rw [h]
     simp only [List.nil_append, List.getLast?_singleton, run_pure]
-    exact ⟨by simp [tempIdent, assignRight, he], by simp [tempIdent], by simp [tempIdent, assignRight], ht⟩
+    exact ⟨by simp [tempIdent, assignRight, he'], by simp [tempIdent], by simp [tempIdent, assignRight, ns_seqOperand], ht⟩
 
 theorem splitComputedKey_spec (ok u) (csp : Span) (e : Node) (sp : Span) (s : St) (he : goodW ok u e = true) :
     SplitSpec ok u (.other "Computed" csp ["expression"] [e]) (splitComputedKey csp e sp s) s := by
